@@ -293,7 +293,12 @@ def stepOf (st : RunSt) (j : Json) : RunSt :=
     let by_ := if has j "by" then some (rspecOf (obj j "by")) else none
     let reason := if str j "reason" = "" then none else some (str j "reason")
     let of := if has j "of" then rspecOf (obj j "of") else ⟨"", "", "", none⟩
-    RunSt.push (st.act (.cu (str j "name") of by_ reason (bool j "composed") (str j "ctrl")))
+    let (st1, rep) := st.act (.cu (str j "name") of by_ reason (bool j "composed") (str j "ctrl"))
+    if bool j "fin" && rep == "ok" then
+      -- created already carrying the finalizer: ONE event for the informer cache
+      let sys2 := (st1.sys.exec (.ef (str j "name"))).1
+      RunSt.push ({ st1 with sys := sys2, raw := true, lagged := true, hist := st1.hist.pop.push sys2.store.usages }, rep)
+    else RunSt.push (st1, rep)
   | "du" => RunSt.push (st.act (.du (str j "name")))
   | "dr" =>
     let wo := strs j "wo"
